@@ -235,7 +235,7 @@ def run(ctx):
     fb2 = prog.body(FROM_BYTES)
     if ctx.anchor(R10, FROM_BYTES, fb2 is not None):
         errs = fb2.error_exit_blocks()
-        slices = [c for c in fb2.calls if re.search(r'ops::Index(Mut)?::index(_mut)?$', c.fn or '')]
+        slices = [c for c in fb2.calls if re.search(r'ops::Index(Mut)?::index(_mut)?$|slice::<impl \[T\]>::(split_at|split_at_mut|split_at_unchecked)$', c.fn or '')]
         len_tests = []
         for i, bl in enumerate(fb2.blocks):
             t = bl['term']
@@ -244,6 +244,12 @@ def run(ctx):
             src = origin_locals(fb2, t['discr']['pl']['l'], depth=4)
             cmpd = any(kind == 'assign' and p_.get('rv') == 'binop' and p_['op'] in ('Lt', 'Le', 'Gt', 'Ge') for x in src for _, kind, p_ in local_defs(fb2, x))
             lens = any(c.dest['l'] in src and re.search(r'::len$', c.fn or '') for c in fb2.calls)
+            # `let Some(n) = data.len().checked_sub(FOOTER) else { return Err(..) }` is a length test as well
+            checked = [c for c in fb2.calls if c.dest['l'] in src and re.search(r'::checked_sub$', c.fn or '') and c.args and c.args[0]['k'] != 'const'
+                       and any(k.dest['l'] in origin_locals(fb2, c.args[0]['pl']['l'], depth=3) and re.search(r'::len$', k.fn or '') for k in fb2.calls)]
+            if checked and t.get('adt') == 'std::option::Option' and fb2.reachable_from([i], avoid={c.bb for c in slices}) & errs:
+                len_tests.append(i)
+                continue
             if cmpd and lens and fb2.reachable_from([i], avoid={c.bb for c in slices}) & errs:
                 len_tests.append(i)
         if ctx.anchor(R10, 'from_bytes: slicing of the input', slices):
@@ -262,6 +268,10 @@ def run(ctx):
                        f'capacity at block {c.bb}: from a footer field: {from_footer}; bounded by min: {bounded}', [site(fb2, c.bb)],
                        what='ColumnIndex::from_bytes allocates as many entries as the unchecked block count of the footer says: a flipped high bit '
                             'panics the process at open (capacity overflow) instead of reporting corruption')
+
+    # a damaged row-set must not be retired unread (after seed C18-e)
+    from rules.c07 import compaction_merges_what_it_retires
+    compaction_merges_what_it_retires(ctx, prog, 'C18-R11')
 
     R9 = 'C18-R9'
     ctx.rule(R9, 'the checksum type that decides HOW a block is verified is not taken from the unverified block itself: a corrupted trailer '
